@@ -1,5 +1,6 @@
 import LinOp.Core.Parse
 import LinOp.C16.Model
+import LinOp.C16.Skeleton
 import LinOp.Generated.C16Consts
 /-!
 Line-protocol driver for the C16 model.
@@ -92,7 +93,18 @@ def addedOf (a w : Mem) : String :=
 def sqrtClamp1 (a : Mem) : Fac :=
   (#[#[match getE a 0 0 with | none => none | some v => some (if v < 0 then 0 else v)]], false)
 
-def runLine (line : String) : String :=
+/-- `sk <first|nan|ok|fail> <tries>`: the statement roles the pinned skeleton executes for that outcome (`roleTrace`);
+`skeleton core|wrapper`: the pinned skeleton itself (`depth:role`). -/
+def runSk (ws : List String) : Option String :=
+  let sk := expectedCore LinOp.Generated.C16.jitterNewBound
+  match ws with
+  | ["sk", o, t] => (t.toNat?).map fun t => "trace=" ++ "~".intercalate (roleTrace sk o t)
+  | ["skeleton", which] =>
+    let l := if which = "core" then sk else expectedWrapper
+    some ("skeleton=" ++ "~".intercalate (l.map fun e => s!"{e.1}:{e.2}"))
+  | _ => none
+
+def runCase (line : String) : String :=
   let ws := words line
   let isOp := ws.head? == some "op"
   match (if isOp then ws.drop 1 else ws) with
@@ -124,6 +136,11 @@ def runLine (line : String) : String :=
       s!"err={err} calls={o.calls} warns={showList showRat o.warns} added={" ".intercalate added |>.replace " " ","} hist={"/".intercalate hist} changed={if changed then 1 else 0} upper={upOk} out={outS} ldl={ldl}"
     | _, _, _, _, _ => "bad-args"
   | _ => "bad-line"
+
+def runLine (line : String) : String :=
+  match runSk (words line) with
+  | some r => r
+  | none => runCase line
 
 def main : IO Unit := do
   let stdin ← IO.getStdin
